@@ -289,6 +289,27 @@ type Bound struct {
 	Sort Sort
 }
 
+// ForallPat is Forall with explicit triggers (each a multi-pattern).
+func ForallPat(bs []Bound, body Term, pats [][]Term) Term {
+	if len(bs) == 0 || body.IsTrue() {
+		return body
+	}
+	var b strings.Builder
+	b.WriteString("(! " + body.S)
+	for _, p := range pats {
+		b.WriteString(" :pattern (")
+		for i, t := range p {
+			if i > 0 {
+				b.WriteString(" ")
+			}
+			b.WriteString(t.S)
+		}
+		b.WriteString(")")
+	}
+	b.WriteString(")")
+	return quant("forall", bs, Term{b.String(), SBool})
+}
+
 func Forall(bs []Bound, body Term) Term {
 	if len(bs) == 0 || body.IsTrue() {
 		return body
